@@ -96,6 +96,8 @@ var c03Probes = []string{
 	`all(AI, {# > 0})`, `count(AI, {# > 1}) + 1`, `any(AI, {# == I})`, `one(AI, {# == 1})`, `none(AI, {B})`,
 	`I ? 1 : 2`, `all(AI, {#})`, `len(1)`, `AI[B]`, `Inc(1, 2)`, `Inc()`, `Zz + 1`, `St.Zz`, `St.Zz()`, `Zz(1)`, `not I`, `-S`, `S + 1`, `B + 1`, `S matches 1`, `AI[1.5]`,
 	`1 + "a"`, `AI + 1`, `I and B`, `I < S`, `S == 1`, `1..F64`, `1 in I`, `filter(I, {true})`, `S[B:1]`, `I[0:1]`, `Inc("a")`, `Concat(S, 1.5)`, `Half(S)`,
+	`Any.foo(1 + "a")`, `Any(1 + "a")`, `St?.Zz(1 + "a")`, `Any.foo(Zz)`, `Any?.foo(not 1)`, `Any.foo(1 + 2)`, `Any(I)`,
+	`{(1): 2}`, `{(I): 2}`, `{(S): 2}`, `{("a" + S): I}`,
 	`[I, S]`, `{a: I, b: S}`, `[1, 2][0]`, `{a: 1}.a`, `St.Get()`, `P.Get()`, `St.Get(1)`, `St.Get() + 1`,
 }
 
@@ -652,7 +654,9 @@ func (r *c03Ref) ty(node ast.Node) c03RT {
 		}
 		return c03Known(c03MapIf)
 	case *ast.PairNode:
-		r.ty(n.Key)
+		if k := r.ty(n.Key); !k.dyn() && !k.isStr() {
+			r.viol("map-key", n.Key)
+		}
 		r.ty(n.Value)
 		return unknown
 	}
@@ -741,6 +745,8 @@ func c03Operands(n ast.Node) []ast.Node {
 		return c03Children(n)
 	case *ast.ConditionalNode:
 		return []ast.Node{x.Cond}
+	case *ast.PairNode:
+		return []ast.Node{x.Key}
 	case *ast.BuiltinNode:
 		out := []ast.Node{x.Arguments[0]}
 		if len(x.Arguments) > 1 && x.Name != "map" {
@@ -753,9 +759,19 @@ func c03Operands(n ast.Node) []ast.Node {
 	return nil
 }
 
-func c03FullyStatic(root ast.Node) bool {
+func c03FullyStatic(root ast.Node, envT reflect.Type) bool {
 	ok := true
 	c03Walk(root, func(n ast.Node) {
+		switch x := n.(type) {
+		case *ast.FunctionNode: // the callee is an operand too
+			if envT != nil && c03DynMember(envT, x.Name) {
+				ok = false
+			}
+		case *ast.MethodNode:
+			if c03DynMember(x.Node.Type(), x.Method) {
+				ok = false
+			}
+		}
 		for _, o := range c03Operands(n) {
 			if !c03Static(o.Type()) {
 				ok = false
@@ -857,6 +873,10 @@ func c03Shapes(root ast.Node, envT reflect.Type) []string {
 			if t := c03Deref(x.Node.Type()); t != nil && t.Kind() == reflect.Map {
 				found["C03-slice-of-map"] = true
 			}
+		case *ast.PairNode:
+			if t := x.Key.Type(); t == nil || (t.Kind() != reflect.String && t.Kind() != reflect.Interface) {
+				found["C03-map-key-type"] = true
+			}
 		case *ast.BuiltinNode:
 			if (x.Name == "filter" || x.Name == "map") && x.Type() != nil && x.Type() != c03ArrIf {
 				found["C03-builtin-elem-type"] = true
@@ -890,13 +910,56 @@ func c03Shapes(root ast.Node, envT reflect.Type) []string {
 		}
 	})
 	order := []string{"C03-literal-retype", "C03-nil-argument", "C03-named-int", "C03-pointer-operand", "C03-nilsafe-on-slice", "C03-cond-branch-type",
-		"C03-index-key-type", "C03-slice-of-map", "C03-builtin-elem-type"}
+		"C03-index-key-type", "C03-slice-of-map", "C03-map-key-type", "C03-builtin-elem-type"}
 	var out []string
 	for _, k := range order {
 		if found[k] {
 			out = append(out, k)
 		}
 	}
+	return out
+}
+
+// c03DynMember: the member `name` of a value of type t is dynamically typed (interface{})
+func c03DynMember(t reflect.Type, name string) bool {
+	if t == nil {
+		return false
+	}
+	d := c03Deref(t)
+	switch d.Kind() {
+	case reflect.Interface:
+		return true
+	case reflect.Map:
+		return d.Elem().Kind() == reflect.Interface
+	}
+	if m, ok := c03Member(t, name); ok {
+		return m.Kind() == reflect.Interface
+	}
+	return false
+}
+
+// c03DynCallArgLocs: locations of the nodes inside the argument lists that checker.Check never
+// visits (callee typed interface{}, or nil-safe method that is missing)
+func c03DynCallArgLocs(root ast.Node, envT reflect.Type) map[[2]int]bool {
+	out := map[[2]int]bool{}
+	mark := func(args []ast.Node) {
+		for _, a := range args {
+			c03Walk(a, func(n ast.Node) { l := n.Location(); out[[2]int{l.Line, l.Column}] = true })
+		}
+	}
+	dynMember := c03DynMember
+	c03Walk(root, func(n ast.Node) {
+		switch x := n.(type) {
+		case *ast.FunctionNode:
+			if envT != nil && dynMember(envT, x.Name) {
+				mark(x.Arguments)
+			}
+		case *ast.MethodNode:
+			if (x.NilSafe && x.Type() == nil) || dynMember(x.Node.Type(), x.Method) {
+				mark(x.Arguments)
+			}
+		}
+	})
 	return out
 }
 
@@ -1155,8 +1218,8 @@ var c03ErrFamilies = []struct {
 	{regexp.MustCompile(`^unknown name`), "CUnknownName"},
 	{regexp.MustCompile(`^unknown operator`), "CUnknownOp"},
 	{regexp.MustCompile(`^invalid operation: matches \(mismatched types`), "CMatches"},
-	{regexp.MustCompile(`^invalid operation: .* \(mismatched type [^s]`), "CMismatch1"},
-	{regexp.MustCompile(`^invalid operation: .* \(mismatched types `), "CMismatch2"},
+	{regexp.MustCompile(`^invalid operation: .* \(mismatched types .* and `), "CMismatch2"},
+	{regexp.MustCompile(`^invalid operation: .* \(mismatched type `), "CMismatch1"},
 	{regexp.MustCompile(`^type .* has no field`), "CNoField"},
 	{regexp.MustCompile(`^invalid operation: cannot use .* as index to`), "CBadIndex"},
 	{regexp.MustCompile(`does not support indexing$`), "CNotIndexable"},
@@ -1284,7 +1347,7 @@ func runC03() {
 		rep.fail(f)
 	}
 	rng := rand.New(rand.NewSource(*seed))
-	nGen, nEnvs, exLevel, coqMutants, coqOrig := 260, 6, 1, 2600, 900
+	nGen, nEnvs, exLevel, coqMutants, coqOrig := 260, 6, 1, 1800, 700
 	if *tier == "thorough" {
 		nGen, nEnvs, exLevel, coqMutants, coqOrig = 2500, 10, 2, 30000, 8000
 	}
@@ -1448,10 +1511,14 @@ func runC03() {
 					v := viols[0]
 					shapes := c03Shapes(tree.Node, w.envT)
 					switch {
+					case c03DynCallArgLocs(tree.Node, w.envT)[[2]int{v.Line, v.Col}]:
+						key = "C03-unchecked-arguments"
 					case v.Rule == "argtype" && v.Lit:
 						key = "C03-literal-retype"
 					case v.Rule == "argtype-nil":
 						key = "C03-nil-argument"
+					case v.Rule == "map-key":
+						key = "C03-map-key-type"
 					case len(shapes) > 0 && (shapes[0] == "C03-pointer-operand" || shapes[0] == "C03-builtin-elem-type"):
 						key = shapes[0]
 					}
@@ -1467,7 +1534,7 @@ func runC03() {
 				continue
 			}
 			rep.hist("accepted")
-			static := c03FullyStatic(tree.Node) && (d == "" || c03Static(t))
+			static := c03FullyStatic(tree.Node, w.envT) && (d == "" || c03Static(t))
 			if !static {
 				rep.hist("accepted, some operand dynamically typed (not run)")
 				continue
